@@ -2,7 +2,7 @@
   C18 support: key uniqueness of the four tables (so that list length = `HashMap::len`), and what
   the tables may still contain once the history is quiescent.
 -/
-import JrpcVerif.Proofs.ClientLiveLemmas
+import JrpcVerif.Proofs.ClientSlotLemmas
 namespace Jrpc.Client
 open Jrpc
 
@@ -37,6 +37,16 @@ end
 theorem ku_of_mgr_eq {a b : Core} (h : b.mgr = a.mgr) (ha : KU a) : KU b := by
   unfold KU at *; rw [h]; exact ha
 
+theorem kum_release (m : Mgr) (uid : Id) (h : KUm m) : KUm (m.releaseReservedSlot uid) := by
+  obtain ⟨a, b, c⟩ := releaseReservedSlot_others m uid
+  exact ⟨List.Nodup.sublist (akeys_releaseReservedSlot m uid) h.requests, by rw [a]; exact h.subs,
+         by rw [b]; exact h.batches, by rw [c]; exact h.handlers⟩
+
+theorem kum_mark (m : Mgr) (uid rid : Id) (c : ChanId) (h : KUm m) : KUm (m.markUnsubscribing uid rid c) := by
+  obtain ⟨a, b, d⟩ := markUnsubscribing_others m uid rid c
+  exact ⟨by rw [akeys_markUnsubscribing]; exact h.requests, by rw [a]; exact h.subs,
+         by rw [b]; exact h.batches, by rw [d]; exact h.handlers⟩
+
 theorem ku_processSubscriptionClose (st : Core) (s : SubId) (h : KU st) : KU (processSubscriptionClose st s) := by
   unfold processSubscriptionClose
   cases h1 : st.mgr.getRequestIdBySubscriptionId s with
@@ -49,7 +59,7 @@ theorem ku_processSubscriptionClose (st : Core) (s : SubId) (h : KU st) : KU (pr
       obtain ⟨m', uid, c, um⟩ := x
       obtain ⟨_, _, e⟩ := removeSubscription_spec _ _ _ _ _ _ _ h2
       subst e
-      exact ⟨nodup_aerase _ _ h.requests, nodup_aerase _ _ h.subs, h.batches, h.handlers⟩
+      exact kum_release _ uid ⟨nodup_aerase _ _ h.requests, nodup_aerase _ _ h.subs, h.batches, h.handlers⟩
 
 theorem ku_processNotification (st : Core) (m : Text) (p : Option Text) (h : KU st) : KU (processNotification st m p).1 := by
   unfold processNotification
@@ -64,26 +74,27 @@ theorem ku_processNotification (st : Core) (m : Text) (p : Option Text) (h : KU 
 
 theorem ku_buildUnsub (st : Core) (rid : Id) (s : SubId) (st' : Core) (msg : FrontMsg)
     (hb : buildUnsubscribeMessage st rid s = some (st', msg)) (h : KU st) : KU st' := by
-  obtain ⟨_, _, _, _, _, hm, _⟩ := buildUnsub_spec st rid s st' msg hb
-  exact ⟨by rw [hm]; exact nodup_areplace _ _ _ h.requests, by rw [hm]; exact nodup_aerase _ _ h.subs,
-         by rw [hm]; exact h.batches, by rw [hm]; exact h.handlers⟩
+  obtain ⟨uid, c, _, _, _, hm, _⟩ := buildUnsub_spec st rid s st' msg hb
+  unfold KU
+  rw [hm]
+  exact kum_mark _ uid rid c ⟨nodup_areplace _ _ _ h.requests, nodup_aerase _ _ h.subs, h.batches, h.handlers⟩
 
 theorem ku_completeSubscribe (st : Core) (r : Response) (uid : Id) (t : Ticket) (um : Text) (h : KU st) :
     KU (completeSubscribe st r uid t um).1 := by
   unfold completeSubscribe
   cases hp : r.payload with
-  | error e => exact h
+  | error e => exact kum_release _ uid h
   | result raw =>
     simp only
     cases hd : decodeSubId raw with
-    | none => exact h
+    | none => exact kum_release _ uid h
     | some s =>
       simp only
       cases hins : st.mgr.insertSubscription r.id uid s st.chans.length um with
-      | none => exact h
+      | none => exact kum_release _ uid h
       | some m' =>
         obtain ⟨hv, hsv, e⟩ := insertSubscription_spec _ _ _ _ _ _ _ hins
-        have h0 : KU ({ st with mgr := m' }.newChan (.sub s) t.op uid).1 := by
+        have h0 : KU ({ st with mgr := m' }.newChan (.sub s) t.op uid r.id).1 := by
           subst e
           exact ⟨nodup_insert_vacant _ _ _ hv h.requests, nodup_insert_vacant _ _ _ hsv h.subs, h.batches, h.handlers⟩
         simp only
@@ -92,13 +103,7 @@ theorem ku_completeSubscribe (st : Core) (r : Response) (uid : Id) (t : Ticket) 
         | false =>
           simp only [Bool.false_eq_true, if_false]
           unfold abandonedSubscribe
-          cases hb : buildUnsubscribeMessage
-              (({ st with mgr := m' }.newChan (.sub s) t.op uid).1.modChan st.chans.length
-                (fun ch => { dropReceiver ch with hasKind := false })) r.id s with
-          | none => exact h0
-          | some x =>
-            obtain ⟨st', msg⟩ := x
-            exact ku_buildUnsub _ _ _ _ _ hb h0
+          exact h0
 
 theorem ku_processSingleResponse (st st' : Core) (r : Response) (effs : List Effect)
     (hp : processSingleResponse st r = .ok (st', effs)) (h : KU st) : KU st' := by
@@ -110,13 +115,13 @@ theorem ku_processSingleResponse (st st' : Core) (r : Response) (effs : List Eff
     | none => simp [hcp] at hp
     | some x =>
       obtain ⟨m', t0⟩ := x
-      obtain ⟨_, e⟩ := completePendingCall_spec _ _ _ _ hcp
-      subst e
-      have h1 : KU { st with mgr := { st.mgr with requests := aerase r.id st.mgr.requests } } :=
-        ⟨nodup_aerase _ _ h.requests, h.subs, h.batches, h.handlers⟩
-      cases t0 with
-      | none => simp [hcp] at hp; rw [← hp.1]; exact h1
-      | some t1 => simp [hcp] at hp; rw [← hp.1]; exact h1
+      have h1 : KUm m' := by
+        rcases completePendingCall_spec _ _ _ _ hcp with ⟨_, e⟩ | ⟨rid, _, _, _, e⟩
+        · subst e; exact ⟨nodup_aerase _ _ h.requests, h.subs, h.batches, h.handlers⟩
+        · subst e; exact kum_release _ rid ⟨nodup_aerase _ _ h.requests, h.subs, h.batches, h.handlers⟩
+      have hst : st'.mgr = m' := by
+        cases t0 <;> simp [hcp] at hp <;> rw [← hp.1] <;> first | rfl | exact ackAt_mgr _ _
+      unfold KU; rw [hst]; exact h1
   | pendingSub =>
     simp only [hs] at hp
     cases hcp : st.mgr.completePendingSubscription r.id with
@@ -287,12 +292,13 @@ theorem sku_reachable (st : St) (h : Reachable st) : SKU st :=
 
 /-! ### quiescence -/
 
-/-- a channel whose stream is over for good: subscription closed by the server, or unsubscribed
-(explicitly, by drop, or after lag) **and** the unsubscribe call acknowledged; a method stream whose
-handler has been removed -/
+/-- a channel whose stream is over for good: a subscription closed by the server or unsubscribed
+(explicitly, by drop, or after lag); an unsubscribe, once sent, must have been acknowledged; a
+method stream whose handler has been removed -/
 def Ended (ch : Chan) : Prop :=
+  (ch.unsubscribed = true → ch.acked = true) ∧
   match ch.owner with
-  | .sub _ => ch.closedByServer = true ∨ (ch.unsubscribed = true ∧ ch.acked = true)
+  | .sub _ => ch.closedByServer = true ∨ ch.unsubscribed = true
   | .method _ => ch.senderAlive = false
 
 /-- defined on the ghost history only: every front-end operation issued so far has been finished
@@ -430,12 +436,13 @@ theorem subfree_processSingleResponse (c c' : Core) (r : Response) (effs : List 
     | none => simp [hcp] at hp
     | some x =>
       obtain ⟨m', t0⟩ := x
-      obtain ⟨hl, e⟩ := completePendingCall_spec _ _ _ _ hcp
-      subst e
-      have h1 : SubFreeCore { c with mgr := { c.mgr with requests := aerase r.id c.mgr.requests } } :=
-        fun p hp => h p (mem_aerase p r.id _ hp).1
+      obtain ⟨_, _, _, hmem, _⟩ := completePendingCall_frame _ _ _ _ hcp
+      have h1 : SubFreeCore { c with mgr := m' } := fun p hp => h p (hmem p hp).1
       cases t0 with
-      | none => simp [hcp] at hp; rw [← hp.1, hp.2]; exact ⟨h1, rfl⟩
+      | none =>
+        simp [hcp] at hp; rw [← hp.1, hp.2]
+        refine ⟨?_, rfl⟩
+        unfold SubFreeCore; rw [ackAt_mgr]; exact h1
       | some t1 => simp [hcp] at hp; rw [← hp.1, ← hp.2]; exact ⟨h1, queuedMsgs_completeIfAlive _ _ _⟩
   | pendingSub =>
     simp only [hs] at hp
